@@ -343,11 +343,12 @@ example : (dns01Validate ⟨fun x => x, fun x => x ++ [1]⟩ ⟨false, 0, 0⟩ t
 def FirstAcme (exts : List Ext) (e : Ext) : Prop :=
   ∃ pre post, exts = pre ++ e :: post ∧ (∀ x ∈ pre, x.id ≠ .acme) ∧ e.id = .acme
 
-/-- the certificate names exactly the identifier: one DNS name equal to it ignoring ASCII case,
-    or no DNS name and exactly one IP address equal to `net.ParseIP(identifier)` -/
+/-- the certificate names exactly the identifier: one DNS name equal to it under `strings.EqualFold`
+    (ASCII case, KELVIN SIGN = k, LONG S = s), or no DNS name and exactly one IP address equal to
+    `net.ParseIP(identifier)` -/
 def LeafNamesIdentifier (ch : Ch) (l : Leaf) : Prop :=
   (l.dns = [] ∧ ∃ a b, l.ips = [a] ∧ ch.ip = some b ∧ ipEqual a b = true) ∨
-  (∃ d, l.dns = [d] ∧ foldEq d ch.value = true)
+  (∃ d, l.dns = [d] ∧ equalFoldAscii d ch.value = true)
 
 theorem leafNameOk_iff (ch : Ch) (l : Leaf) : leafNameOk ch l = true ↔ LeafNamesIdentifier ch l := by
   unfold leafNameOk LeafNamesIdentifier
@@ -367,6 +368,52 @@ theorem leafNameOk_iff (ch : Ch) (l : Leaf) : leafNameOk ch l = true ↔ LeafNam
     cases ds with
     | nil => simp
     | cons d' ds' => simp
+
+
+/-! ### which names `EqualFold` lets through -/
+
+/-- on an ASCII identifier `EqualFold` is ASCII case-insensitive equality, nothing more -/
+theorem equalFoldAscii_ascii (d v : Str) (hv : ∀ b ∈ v, b < 128) :
+    equalFoldAscii d v = foldEq d v := by
+  induction d generalizing v with
+  | nil => cases v <;> simp [equalFoldAscii, foldEq]
+  | cons c ds ih =>
+    cases v with
+    | nil => simp [equalFoldAscii, foldEq]
+    | cons b vs =>
+      have hb : b < 128 := hv b List.mem_cons_self
+      have := ih vs (fun x hx => hv x (List.mem_cons_of_mem _ hx))
+      unfold equalFoldAscii
+      simp only [hb, if_true, this, foldEq, List.map_cons]
+      by_cases hc : lo c = lo b <;> simp [hc]
+
+/-- a matching name has at most as many bytes as the identifier, and an empty one matches only
+    the empty identifier -/
+theorem equalFoldAscii_length (d v : Str) (h : equalFoldAscii d v = true) : d.length ≤ v.length := by
+  induction d generalizing v with
+  | nil => simp
+  | cons c ds ih =>
+    cases v with
+    | nil => simp [equalFoldAscii] at h
+    | cons b vs =>
+      unfold equalFoldAscii at h
+      by_cases hb : b < 128
+      · simp only [hb, if_true, Bool.and_eq_true] at h
+        have := ih vs h.2
+        simp; omega
+      · simp only [hb, if_false] at h
+        split at h
+        · simp only [Bool.and_eq_true] at h
+          have := ih _ h.2
+          simp; omega
+        · simp only [Bool.and_eq_true] at h
+          have := ih _ h.2
+          simp; omega
+        · cases h
+
+example : equalFoldAscii (s "K.example") [0xE2, 0x84, 0xAA, 46, 101, 120, 97, 109, 112, 108, 101] = true := by decide
+example : equalFoldAscii (s "Sub") [0xC5, 0xBF, 117, 66] = true := by decide
+example : equalFoldAscii (s "b") [0xC3, 0xBC] = false := by decide
 
 def TlsAccept (h : Hash) (ch : Ch) (r : DialRes) : Prop :=
   ∃ leaf th e, r = .conn (some leaf) acmeTls1 ∧ LeafNamesIdentifier ch leaf ∧ ch.thumb = some th ∧
@@ -621,8 +668,8 @@ theorem tlsalpn01_rejects (h : Hash) (ch : Ch) (leaf : Leaf) (proto : Str) :
 def targetFor (cfg : Cfg) (typ : ChType) (value : Str) (ip : Option Str) (token : Str) : M Target :=
   match typ with
   | .http01 =>
-    .val (.httpGet (s "http://" ++ http01Host cfg value ip ++
-      (if cfg.portHTTP = 0 then [] else [58] ++ itoa cfg.portHTTP) ++ wellKnown ++ token))
+    .val (.httpGet (s "http://" ++ escapeWith hostKeep (http01Host cfg value ip ++
+      (if cfg.portHTTP = 0 then [] else [58] ++ itoa cfg.portHTTP)) ++ wellKnown ++ escapeWith pathKeep token))
   | .dns01 => .val (.txt (s "_acme-challenge." ++ rootedName cfg (trimPrefix (s "*.") value)))
   | .tlsalpn01 =>
     match serverName value ip with
@@ -728,6 +775,21 @@ theorem target_from_identifier (h : Hash) (cfg : Cfg) (dbOk : Bool) (ch : Ch) (w
           rw [tlsalpn01_target h cfg dbOk ch r o' sni hsn hr]
           unfold targetFor; simp only [hsn]; rfl
     | _ => simp at hv
+
+
+/-- percent-escaping leaves a string of kept characters alone (identifiers and tokens that reach
+    http-01 through NewOrder are such strings), and escapes every other byte as `%XX` -/
+theorem escapeWith_id (keep : Nat → Bool) (a : Str) (h : ∀ c ∈ a, keep c = true) : escapeWith keep a = a := by
+  induction a with
+  | nil => rfl
+  | cons c cs ih =>
+    have hc := h c List.mem_cons_self
+    have := ih (fun x hx => h x (List.mem_cons_of_mem _ hx))
+    unfold escapeWith at this ⊢
+    simp [hc, this]
+
+example : escapeWith hostKeep (s "a b/[::1]:80") = s "a%20b%2F[::1]:80" := by decide
+example : escapeWith pathKeep (s "a/b?c d") = s "a/b%3Fc%20d" := by decide
 
 /-- the host part: a DNS identifier is contacted under its own name (optionally rooted), an IPv6
     literal in brackets, an IPv4 literal as is — `http01Host` never contains anything but the
@@ -928,7 +990,7 @@ def DaAcceptCoded (h : Hash) (ch : Ch) (i : DaIn) : Prop :=
   match i.format, i.facts with
   | .step, .step f => f.x5c.chainOk = true ∧ (∃ th, ch.thumb = some th ∧ f.verifies (keyAuth ch.token th) = true) ∧
       (f.serial = .value ch.value ∨ (f.serial = .absent ∧ ch.value = []))
-  | .apple, .apple f => f.x5c.chainOk = true ∧ (f.nonce = [] ∨ f.nonce = h.raw ch.token) ∧
+  | .apple, .apple f => f.x5c.chainOk = true ∧ f.nonce = h.raw ch.token ∧
       (f.udid = ch.value ∨ f.serial = ch.value)
   | .tpm, .tpm f => f.pre = .ok ∧ (∃ th, ch.thumb = some th ∧ f.extraData = h.raw (keyAuth ch.token th)) ∧
       (f.permanentIdentifiers = [] ∨ ch.value ∈ f.permanentIdentifiers)
@@ -958,7 +1020,7 @@ theorem daStep_valid (dbOk : Bool) (ch : Ch) (i : DaIn) (f : StepFacts) (o : Out
 
 theorem daApple_valid (h : Hash) (dbOk : Bool) (ch : Ch) (i : DaIn) (f : AppleFacts) (o : Outcome)
     (hp : ch.status = .pending) (ho : daApple h dbOk ch i f = .val o) (hv : o.status = .valid) :
-    dbOk = true ∧ f.x5c.chainOk = true ∧ (f.nonce = [] ∨ f.nonce = h.raw ch.token) ∧
+    dbOk = true ∧ f.x5c.chainOk = true ∧ f.nonce = h.raw ch.token ∧
       (f.udid = ch.value ∨ f.serial = ch.value) := by
   unfold daApple doApple at ho
   cases hx : x5cCheck .badAttestationStatement f.x5c with
@@ -978,19 +1040,12 @@ theorem daApple_valid (h : Hash) (dbOk : Bool) (ch : Ch) (i : DaIn) (f : AppleFa
         · cases ho; exact absurd hv (daBad_not_valid _ _ _ hp)
         · rename_i hn hid
           cases ho
-          refine ⟨(daFinish_valid _ _ _ hp hv).1, hc, ?_, ?_⟩
-          · by_cases h0 : f.nonce = []
-            · exact .inl h0
-            · right
-              have : f.nonce.length ≠ 0 := by simpa using h0
-              by_cases h1 : f.nonce = h.raw ch.token
-              · exact h1
-              · exact absurd ⟨this, h1⟩ hn
-          · by_cases h0 : f.udid = ch.value
-            · exact .inl h0
-            · by_cases h1 : f.serial = ch.value
-              · exact .inr h1
-              · exact absurd ⟨h0, h1⟩ hid
+          refine ⟨(daFinish_valid _ _ _ hp hv).1, hc, by simpa using hn, ?_⟩
+          by_cases h0 : f.udid = ch.value
+          · exact .inl h0
+          · by_cases h1 : f.serial = ch.value
+            · exact .inr h1
+            · exact absurd ⟨h0, h1⟩ hid
     · have hf' : f.fpOk = false := by cases hx : f.fpOk <;> simp_all
       simp only [hf', Bool.not_false, if_true] at ho
       cases ho; exact absurd hv (noWrite_not_valid _ _ hp)
@@ -1047,7 +1102,7 @@ theorem daTpm_valid (h : Hash) (dbOk : Bool) (ch : Ch) (i : DaIn) (f : TpmFacts)
     the format is enabled, and — `step`: the leaf chains to the configured (or Yubico) root, its
     key signed exactly token "." thumbprint, and the certificate's serial extension is the
     identifier; `apple`: the leaf chains to the configured (or Apple) root, the nonce extension is
-    *absent* or SHA-256(token), and UDID or serial is the identifier; `tpm`: every structural check
+    SHA-256(token) (since fix 9ce0826 it must be present), and UDID or serial is the identifier; `tpm`: every structural check
     passed against the configured roots, extraData = SHA-256(token "." thumbprint), and the
     permanent-identifier list is *empty* or contains the identifier. -/
 theorem device_attest_valid_only_if_partial (h : Hash) (dbOk : Bool) (ch : Ch) (i : DaIn) (o : Outcome)
@@ -1055,15 +1110,16 @@ theorem device_attest_valid_only_if_partial (h : Hash) (dbOk : Bool) (ch : Ch) (
     dbOk = true ∧ i.authzOk = true ∧ i.jsonOk = true ∧ i.errField = false ∧ i.b64Ok = true ∧ i.emptyObj = false ∧
       i.cborWellformed = true ∧ i.cborOk = true ∧ i.enabled = true ∧ DaAcceptCoded h ch i := by
   unfold deviceAttest01Validate at ho
-  split at ho; · cases ho; exact absurd hv (noWrite_not_valid _ _ hp)
-  split at ho; · cases ho; exact absurd hv (noWrite_not_valid _ _ hp)
-  split at ho; · cases ho; exact absurd hv (daBad_not_valid _ _ _ hp)
-  split at ho; · cases ho; exact absurd hv (daBad_not_valid _ _ _ hp)
-  split at ho; · cases ho; exact absurd hv (daBad_not_valid _ _ _ hp)
-  split at ho; · cases ho; exact absurd hv (daBad_not_valid _ _ _ hp)
+  split at ho; · cases ho; exact absurd hv (by simp [noWrite, hp])
+  split at ho; · cases ho; exact absurd hv (by simp [noWrite, hp])
   split at ho; · cases ho; exact absurd hv (noWrite_not_valid _ _ hp)
   split at ho; · cases ho; exact absurd hv (daBad_not_valid _ _ _ hp)
-  rename_i h1 h2 h3 h4 h5 h6 h7 h8
+  split at ho; · cases ho; exact absurd hv (daBad_not_valid _ _ _ hp)
+  split at ho; · cases ho; exact absurd hv (daBad_not_valid _ _ _ hp)
+  split at ho; · cases ho; exact absurd hv (daBad_not_valid _ _ _ hp)
+  split at ho; · cases ho; exact absurd hv (noWrite_not_valid _ _ hp)
+  split at ho; · cases ho; exact absurd hv (daBad_not_valid _ _ _ hp)
+  rename_i h1 h1b h2 h3 h4 h5 h6 h7 h8
   have core : dbOk = true ∧ DaAcceptCoded h ch i := by
     unfold daCore at ho
     unfold DaAcceptCoded
@@ -1073,6 +1129,15 @@ theorem device_attest_valid_only_if_partial (h : Hash) (dbOk : Bool) (ch : Ch) (
       | exact daTpm_valid h dbOk ch i _ o hp ho hv
       | (cases ho; exact absurd hv (daBad_not_valid _ _ _ hp))
   refine ⟨core.1, ?_, ?_, ?_, ?_, ?_, ?_, ?_, ?_, core.2⟩ <;> simp_all
+
+
+/-- **fix 365cae8**: when the authorization named by the request belongs to another account than
+    the challenge, device-attest-01 answers "unauthorized" and touches nothing: no status, no
+    error, no fingerprint — whatever the attestation is. -/
+theorem device_attest_other_account_authz_refused (h : Hash) (dbOk : Bool) (ch : Ch) (i : DaIn)
+    (ha : i.authzOk = true) (ho : i.authzOtherAccount = true) :
+    deviceAttest01Validate h dbOk ch i = .val ⟨ch.status, ch.err, .unauthorized, .none, false⟩ := by
+  unfold deviceAttest01Validate; simp [ha, ho, noWrite]
 
 /-- `step` alone meets the property's conjunct in full (identifiers are never empty: NewOrder
     rejects an empty permanent identifier) -/
@@ -1097,19 +1162,32 @@ def wX5c : X5c := ⟨true, 2, true, true, true⟩
 def wCh : Ch := ⟨.deviceAttest01, .pending, .none, s "udid-1", s "tok", some (s "thumb"), none⟩
 def wHash : Hash := ⟨fun x => x ++ [0], fun x => x ++ [1]⟩
 def wIn (fm : AttFormat) (f : FmtFacts) : DaIn :=
-  { authzOk := true, jsonOk := true, errField := false, b64Ok := true, emptyObj := false, cborWellformed := true,
+  { authzOk := true, authzMissing := false, authzOtherAccount := false, jsonOk := true, errField := false, b64Ok := true, emptyObj := false, cborWellformed := true,
     cborOk := true, format := fm, enabled := true, facts := f, fpNonEmpty := true, authzDbOk := true }
 
-/-- **Refutation (D14, apple half; reproduced on the real code)**: an `apple` attestation whose
-    leaf has *no nonce extension* turns the challenge valid — nothing binds it to this challenge's
-    token, let alone to the account key. -/
+/-- **Refutation (apple binds the token only; reproduced on the real code)**: the clause at full
+    strength asks for a binding to the key authorization; an `apple` attestation carries
+    SHA-256(token) as its nonce and is accepted — the account key is not bound.  (The former
+    witness, an attestation *without* nonce extension, is refused since fix 9ce0826.) -/
 theorem device_attest_valid_only_if_refuted_apple : ¬ DaFull := by
   intro hall
-  have := hall wHash true wCh (wIn .apple (.apple ⟨wX5c, true, s "sn", s "udid-1", []⟩))
+  have := hall wHash true wCh (wIn .apple (.apple ⟨wX5c, true, s "sn", s "udid-1", s "tok" ++ [0]⟩))
     ⟨.valid, .none, .ok, .none, true⟩ rfl (by decide) (by decide) rfl
   simp [DaAccept, wIn, wCh, wHash, keyAuth] at this
 
-/-- **Refutation (D14, apple, second witness; reproduced)**: even with the nonce present the
+/-- since fix 9ce0826: an `apple` attestation without nonce extension (or with an empty one) is
+    refused whenever the digest oracle returns a non-empty digest -/
+theorem device_attest_apple_requires_nonce (h : Hash) (dbOk : Bool) (ch : Ch) (i : DaIn) (o : Outcome) (f : AppleFacts)
+    (hp : ch.status = .pending) (hf : i.facts = .apple f) (hn : f.nonce = []) (hd : h.raw ch.token ≠ [])
+    (ho : deviceAttest01Validate h dbOk ch i = .val o) : o.status ≠ .valid := by
+  intro hv
+  have := (device_attest_valid_only_if_partial h dbOk ch i o hp ho hv).2.2.2.2.2.2.2.2.2
+  unfold DaAcceptCoded at this
+  rw [hf] at this
+  cases hfmt : i.format <;> simp only [hfmt] at this
+  exact hd (by rw [← this.2.1, hn])
+
+/-- **Refutation (apple, the same for every account key; reproduced)**: the
     `apple` format binds SHA-256(token) only — the same attestation is accepted whichever account
     key signs the request. -/
 theorem device_attest_apple_ignores_account_key (th : Option Str) :
@@ -1157,16 +1235,14 @@ theorem device_attest_valid_only_if_partial_full (h : Hash) (dbOk : Bool) (ch : 
     cases hfmt : i.format <;> simp only [hfmt] at this
 
 theorem device_attest_apple_nonce (h : Hash) (dbOk : Bool) (ch : Ch) (i : DaIn) (o : Outcome) (f : AppleFacts)
-    (hp : ch.status = .pending) (hf : i.facts = .apple f) (hn : f.nonce ≠ [])
+    (hp : ch.status = .pending) (hf : i.facts = .apple f)
     (ho : deviceAttest01Validate h dbOk ch i = .val o) (hv : o.status = .valid) :
     f.x5c.chainOk = true ∧ f.nonce = h.raw ch.token ∧ (f.udid = ch.value ∨ f.serial = ch.value) := by
   have := (device_attest_valid_only_if_partial h dbOk ch i o hp ho hv).2.2.2.2.2.2.2.2.2
   unfold DaAcceptCoded at this
   rw [hf] at this
   cases hfmt : i.format <;> simp only [hfmt] at this
-  obtain ⟨a, b | b, c⟩ := this
-  · exact absurd b hn
-  · exact ⟨a, b, c⟩
+  exact this
 
 example : deviceAttest01Validate wHash true { wCh with value := s "123" }
     (wIn .step (.step ⟨wX5c, true, true, .rsa, fun m => m == s "tok.thumb", true, .value (s "123")⟩)) =
@@ -1280,6 +1356,118 @@ theorem validate_total (h : Hash) (cfg : Cfg) (dbOk : Bool) (ch : Ch) (w : World
       obtain ⟨o, ho⟩ := device_attest_total h dbOk ch i
       simp [ho]
 
+
+/-! ## 8b. wire-dpop-01 and wire-oidc-01 -/
+
+theorem wireFinish_valid_iff (dbOk : Bool) (ch : Ch) (a : Bool) (hp : ch.status = .pending) :
+    (wireFinish dbOk ch a).status = .valid ↔ dbOk = true := by
+  unfold wireFinish
+  simp only
+  split
+  · simp only; exact store_valid_iff _ _ _ _ hp
+  · exact store_valid_iff _ _ _ _ hp
+
+/-- the accepting condition of wire-dpop-01 -/
+def DpopAccept (ch : Ch) (f : DpopFacts) : Prop :=
+  f.provOk = true ∧ f.payloadOk = true ∧ f.idOk = true ∧ f.targetOk = true ∧ dpopTokenOk ch f = true
+
+/-- **wire-dpop-01 turns valid exactly when** the payload parses, the stored identifier is a Wire
+    device id, and every check of `parseAndVerifyWireAccessToken` passes — for every payload. -/
+theorem wiredpop01_valid_only_if (dbOk : Bool) (ch : Ch) (f : DpopFacts) (hp : ch.status = .pending) :
+    (wireDpop01Validate dbOk ch f).status = .valid ↔ dbOk = true ∧ DpopAccept ch f := by
+  unfold wireDpop01Validate DpopAccept
+  cases h1 : f.provOk
+  · simp [noWrite, hp]
+  cases h2 : f.payloadOk
+  · simp [noWrite, hp]
+  cases h3 : f.idOk
+  · simp [noWrite, hp]
+  cases h4 : f.targetOk
+  · simp [noWrite, hp]
+  cases h5 : dpopTokenOk ch f
+  · simp [storeError_not_valid _ _ _ _ _ hp]
+  · simp [wireFinish_valid_iff _ _ _ hp]
+
+/-- **what an accepted wire-dpop-01 response proves**: the access token is signed by the configured
+    wire-server key and names this challenge's URL, the evaluated issuer and the stored client id;
+    its `cnf.kid` is the requesting account's key id; the DPoP proof is signed by the *requesting
+    account's key*, carries that key id, this challenge's *token* (`chal`), the same nonce and
+    challenge as the access token, the URL, and the stored handle and display name. -/
+theorem dpopTokenOk_spec (ch : Ch) (f : DpopFacts) (h : dpopTokenOk ch f = true) :
+    (f.tok.sigOk = true ∧ f.tok.kid = f.serverKid ∧ f.tok.timeOk = true ∧ f.tok.expTooFar = false) ∧
+    (f.atIss = f.issuer ∧ f.audience ∈ f.atAud ∧ f.atClientId = f.clientId ∧ f.atScope = s "wire_client_id") ∧
+    (f.atCnfKid = f.accountKid ∧ f.pf.kid = some f.accountKid ∧ f.pf.sigOk = true) ∧
+    (f.mapChal = some ch.token ∧ f.pfChal = f.atChal ∧ f.pfNonce = f.atNonce ∧ f.pfNonce ≠ []) ∧
+    (f.audience ∈ f.pfAud ∧ f.pfHtu = f.issuer ∧ f.pfSub = f.clientId ∧ f.pf.timeOk = true ∧ f.pf.expTooFar = false) ∧
+    (f.mapHandle = some f.handle ∧ f.mapName = some f.name) := by
+  unfold dpopTokenOk at h
+  simp only [Bool.and_eq_true, beq_iff_eq, bne_iff_ne, ne_eq, Bool.not_eq_true', List.contains_iff_mem] at h
+  obtain ⟨⟨⟨⟨⟨⟨⟨⟨⟨⟨⟨⟨⟨⟨⟨⟨⟨⟨⟨⟨⟨⟨⟨⟨⟨⟨⟨⟨⟨⟨⟨⟨⟨⟨⟨⟨⟨⟨a1, a2⟩, a3⟩, a4⟩, a5⟩, a6⟩, a7⟩, a8⟩, a9⟩, a10⟩, a11⟩, a12⟩, a13⟩, a14⟩, a15⟩, a16⟩, a17⟩, a18⟩, a19⟩, a20⟩, a21⟩, a22⟩, a23⟩, a24⟩, a25⟩, a26⟩, a27⟩, a28⟩, a29⟩, a30⟩, a31⟩, a32⟩, a33⟩, a34⟩, a35⟩, a36⟩, a37⟩, a38⟩, a39⟩ := h
+  exact ⟨⟨a6, a5, a7, a14⟩, ⟨a8, a9, a13, a15⟩, ⟨a12, a18, a19⟩, ⟨a33, a29, a27, a26⟩, ⟨a21, a23, a25, a20, a24⟩, ⟨a36, a39⟩⟩
+
+def OidcAccept (ch : Ch) (f : OidcFacts) : Prop :=
+  f.provOk = true ∧ f.payloadOk = true ∧ f.idOk = true ∧ f.verifierOk = true ∧ f.verifyOk = true ∧ f.claimsOk = true ∧
+  (∃ th, ch.thumb = some th ∧ f.keyauth = keyAuth ch.token th) ∧ f.acmeAud = f.audience ∧
+  f.transformOk = true ∧ f.tName = some f.name ∧ f.tHandle = some f.handle
+
+theorem oidcPost_iff (ch : Ch) (th : Str) (f : OidcFacts) :
+    oidcPost ch th f = true ↔ f.keyauth = keyAuth ch.token th ∧ f.acmeAud = f.audience ∧ f.transformOk = true ∧
+      f.tName = some f.name ∧ f.tHandle = some f.handle := by
+  unfold oidcPost
+  simp only [Bool.and_eq_true, beq_iff_eq]
+  constructor
+  · rintro ⟨⟨⟨⟨a, b⟩, c⟩, d⟩, e⟩; exact ⟨a.symm, b, c, d, e⟩
+  · rintro ⟨a, b, c, d, e⟩; exact ⟨⟨⟨⟨a.symm, b⟩, c⟩, d⟩, e⟩
+
+/-- **wire-oidc-01 turns valid exactly when** the id token verifies under the configured provider,
+    its `keyauth` claim *equals* token "." thumbprint of the requesting account's key, its `acme_aud`
+    claim is this challenge's URL, and the (transformed) name and preferred_username are the stored
+    identifier's display name and handle. -/
+theorem wireoidc01_valid_only_if (dbOk : Bool) (ch : Ch) (f : OidcFacts) (hp : ch.status = .pending) :
+    (wireOidc01Validate dbOk ch f).status = .valid ↔ dbOk = true ∧ OidcAccept ch f := by
+  unfold wireOidc01Validate OidcAccept
+  cases h1 : f.provOk
+  · simp [noWrite, hp]
+  cases h2 : f.payloadOk
+  · simp [noWrite, hp]
+  cases h3 : f.idOk
+  · simp [noWrite, hp]
+  cases h4 : f.verifierOk
+  · simp [noWrite, hp]
+  cases h5 : oidcPre f
+  · have : ¬ (f.verifyOk = true ∧ f.claimsOk = true) := by
+      unfold oidcPre at h5; intro ⟨a, b⟩; simp [a, b] at h5
+    simp only [Bool.not_true, Bool.false_eq_true, if_false, Bool.not_false, if_true, true_and]
+    constructor
+    · intro hv; exact absurd hv (storeError_not_valid _ _ _ _ _ hp)
+    · rintro ⟨_, a, b, _⟩; exact absurd ⟨a, b⟩ this
+  · have hpre : f.verifyOk = true ∧ f.claimsOk = true := by
+      unfold oidcPre at h5; simpa using h5
+    simp only [Bool.not_true, Bool.false_eq_true, if_false, true_and, hpre.1, hpre.2]
+    cases hth : ch.thumb with
+    | none => simp [noWrite, hp]
+    | some th =>
+      simp only [Option.some.injEq, exists_eq_left']
+      cases h6 : oidcPost ch th f
+      · simp only [Bool.not_false, if_true]
+        constructor
+        · intro hv; exact absurd hv (storeError_not_valid _ _ _ _ _ hp)
+        · rintro ⟨_, hh⟩
+          have := (oidcPost_iff ch th f).2 hh
+          rw [h6] at this; cases this
+      · simp only [Bool.not_true, Bool.false_eq_true, if_false]
+        rw [wireFinish_valid_iff _ _ _ hp]
+        exact ⟨fun hd => ⟨hd, (oidcPost_iff ch th f).1 h6⟩, fun hh => hh.1⟩
+
+/-- both Wire validators store the challenge valid *before* they look up the account's orders and
+    keep the token: a failure there returns an internal error although the challenge is already valid -/
+theorem wire_valid_before_token_store (dbOk : Bool) (ch : Ch) (f : DpopFacts) (hp : ch.status = .pending)
+    (hd : dbOk = true) (ha : DpopAccept ch f) (hf : (f.ordersOk && f.tokenStoreOk) = false) :
+    (wireDpop01Validate dbOk ch f).status = .valid ∧ (wireDpop01Validate dbOk ch f).ret = .ise := by
+  obtain ⟨h1, h2, h3, h4, h5⟩ := ha
+  unfold wireDpop01Validate wireFinish
+  simp [h1, h2, h3, h4, h5, hd, store, hf]
+
 /-! ## 9. the dispatcher: nothing else ever turns a challenge valid -/
 
 /-- `Challenge.Validate` does nothing to a challenge that is not pending, and a pending challenge
@@ -1290,7 +1478,9 @@ theorem validate_valid_only_if (h : Hash) (cfg : Cfg) (dbOk : Bool) (ch : Ch) (w
     ((ch.typ = .http01 ∧ ∃ r, w = .http r ∧ HttpAccept ch r) ∨
      (ch.typ = .dns01 ∧ ∃ r, w = .txt r ∧ DnsAccept h ch r) ∨
      (ch.typ = .tlsalpn01 ∧ ∃ r, w = .tls r ∧ TlsAccept h ch r) ∨
-     (ch.typ = .deviceAttest01 ∧ ∃ i, w = .attest i ∧ DaAcceptCoded h ch i)) := by
+     (ch.typ = .deviceAttest01 ∧ ∃ i, w = .attest i ∧ DaAcceptCoded h ch i) ∨
+     (ch.typ = .wireDpop01 ∧ ∃ f, w = .dpop f ∧ DpopAccept ch f) ∨
+     (ch.typ = .wireOidc01 ∧ ∃ f, w = .oidc f ∧ OidcAccept ch f)) := by
   unfold validate at hv
   simp only [hp, ne_eq, not_true_eq_false, if_false] at hv
   cases htyp : ch.typ with
@@ -1332,10 +1522,24 @@ theorem validate_valid_only_if (h : Hash) (cfg : Cfg) (dbOk : Bool) (ch : Ch) (w
         simp only [ho] at hv
         injection hv with hv; subst hv
         have := device_attest_valid_only_if_partial h dbOk ch i o' hp ho hval
-        exact ⟨this.1, .inr (.inr (.inr ⟨rfl, i, rfl, this.2.2.2.2.2.2.2.2.2⟩))⟩
+        exact ⟨this.1, .inr (.inr (.inr (.inl ⟨rfl, i, rfl, this.2.2.2.2.2.2.2.2.2⟩)))⟩
     | _ => simp [htyp] at hv
-  | wireOidc01 => cases w <;> simp [htyp] at hv
-  | wireDpop01 => cases w <;> simp [htyp] at hv
+  | wireOidc01 =>
+    cases w with
+    | oidc f =>
+      simp only [htyp] at hv
+      injection hv with hv; subst hv
+      have := (wireoidc01_valid_only_if dbOk ch f hp).1 hval
+      exact ⟨this.1, .inr (.inr (.inr (.inr (.inr ⟨rfl, f, rfl, this.2⟩))))⟩
+    | _ => simp [htyp] at hv
+  | wireDpop01 =>
+    cases w with
+    | dpop f =>
+      simp only [htyp] at hv
+      injection hv with hv; subst hv
+      have := (wiredpop01_valid_only_if dbOk ch f hp).1 hval
+      exact ⟨this.1, .inr (.inr (.inr (.inr (.inl ⟨rfl, f, rfl, this.2⟩))))⟩
+    | _ => simp [htyp] at hv
   | unknown =>
     have : o = noWrite ch .none := by cases w <;> simp [htyp] at hv <;> exact hv.symm
     subst this
@@ -1352,17 +1556,20 @@ theorem validate_not_pending_noop (h : Hash) (cfg : Cfg) (dbOk : Bool) (ch : Ch)
 theorem never_valid_otherwise (h : Hash) (cfg : Cfg) (dbOk : Bool) (ch : Ch) (w : World) (o : Outcome)
     (hp : ch.status = .pending) (hv : validate h cfg dbOk ch w = .done o)
     (hn : ¬ ((∃ r, w = .http r ∧ HttpAccept ch r) ∨ (∃ r, w = .txt r ∧ DnsAccept h ch r) ∨
-             (∃ r, w = .tls r ∧ TlsAccept h ch r) ∨ (∃ i, w = .attest i ∧ DaAcceptCoded h ch i))) :
+             (∃ r, w = .tls r ∧ TlsAccept h ch r) ∨ (∃ i, w = .attest i ∧ DaAcceptCoded h ch i) ∨
+             (∃ f, w = .dpop f ∧ DpopAccept ch f) ∨ (∃ f, w = .oidc f ∧ OidcAccept ch f))) :
     o.status ≠ .valid ∧ authzAfter o = .pending := by
   have : o.status ≠ .valid := by
     intro hval
     obtain ⟨_, hc⟩ := validate_valid_only_if h cfg dbOk ch w o hp hv hval
     apply hn
-    rcases hc with ⟨_, r, a, b⟩ | ⟨_, r, a, b⟩ | ⟨_, r, a, b⟩ | ⟨_, r, a, b⟩
+    rcases hc with ⟨_, r, a, b⟩ | ⟨_, r, a, b⟩ | ⟨_, r, a, b⟩ | ⟨_, r, a, b⟩ | ⟨_, r, a, b⟩ | ⟨_, r, a, b⟩
     · exact .inl ⟨r, a, b⟩
     · exact .inr (.inl ⟨r, a, b⟩)
     · exact .inr (.inr (.inl ⟨r, a, b⟩))
-    · exact .inr (.inr (.inr ⟨r, a, b⟩))
+    · exact .inr (.inr (.inr (.inl ⟨r, a, b⟩)))
+    · exact .inr (.inr (.inr (.inr (.inl ⟨r, a, b⟩))))
+    · exact .inr (.inr (.inr (.inr (.inr ⟨r, a, b⟩))))
   exact ⟨this, by unfold authzAfter; simp [this]⟩
 
 /-! ## 10. the owning authorization: only `Authorization.UpdateStatus` decides its status -/
@@ -1428,5 +1635,165 @@ example : (deviceAttest01Validate wHash true wCh
 example : (deviceAttest01Validate wHash true wCh
     (wIn .tpm (.tpm ⟨.ok, s "tok.thumb" ++ [0], false, true, [s "udid-1"]⟩))) =
     .val ⟨.valid, .none, .ok, .none, true⟩ := by decide
+
+/-! ## 11. the request handler `api.GetChallenge` and the authorization polls -/
+
+/-- **Only the owning account can move a challenge**: a request signed by any other account is
+    answered 401; the stored challenge is untouched and the validation client is not used —
+    whatever the host would have served, whichever key authorization it carries. -/
+theorem getChallenge_not_owner (h : Hash) (cfg : Cfg) (dbOk : Bool) (ch : Ch) (w : World) (req : HReq)
+    (hex : req.chExists = true) (hno : req.owner = false) :
+    getChallenge h cfg dbOk ch w req = .val ⟨.unauthorized, untouched ch⟩ := by
+  unfold getChallenge; simp [hex, hno]
+
+theorem getChallenge_unknown_challenge (h : Hash) (cfg : Cfg) (dbOk : Bool) (ch : Ch) (w : World) (req : HReq)
+    (hex : req.chExists = false) :
+    getChallenge h cfg dbOk ch w req = .val ⟨.notFound, untouched ch⟩ := by
+  unfold getChallenge; simp [hex]
+
+/-- **A POST to the challenge URL turns the stored challenge valid only if** the challenge exists,
+    the signing account owns it, and its validator's accepting condition holds for the response —
+    with the key authorization computed from the stored token and the *requesting account's* key
+    (`ch.thumb`), and, for device-attest-01, with the authorization the URL names loadable. -/
+theorem getChallenge_valid_only_if (h : Hash) (cfg : Cfg) (dbOk : Bool) (ch : Ch) (w : World) (req : HReq) (r : HOut)
+    (hp : ch.status = .pending) (hr : getChallenge h cfg dbOk ch w req = .val r) (hv : r.effect.status = .valid) :
+    req.chExists = true ∧ req.owner = true ∧ dbOk = true ∧
+    ((ch.typ = .http01 ∧ ∃ x, worldVia req.azUrl w = .http x ∧ HttpAccept ch x) ∨
+     (ch.typ = .dns01 ∧ ∃ x, worldVia req.azUrl w = .txt x ∧ DnsAccept h ch x) ∨
+     (ch.typ = .tlsalpn01 ∧ ∃ x, worldVia req.azUrl w = .tls x ∧ TlsAccept h ch x) ∨
+     (ch.typ = .deviceAttest01 ∧ ∃ i, worldVia req.azUrl w = .attest i ∧ DaAcceptCoded h ch i) ∨
+     (ch.typ = .wireDpop01 ∧ ∃ f, worldVia req.azUrl w = .dpop f ∧ DpopAccept ch f) ∨
+     (ch.typ = .wireOidc01 ∧ ∃ f, worldVia req.azUrl w = .oidc f ∧ OidcAccept ch f)) := by
+  unfold getChallenge at hr
+  cases hex : req.chExists
+  · simp [hex] at hr; subst hr; simp [untouched, hp] at hv
+  · cases hown : req.owner
+    · simp [hex, hown] at hr; subst hr; simp [untouched, hp] at hv
+    · simp only [hex, hown, Bool.not_true, Bool.false_eq_true, if_false] at hr
+      cases hval : validate h cfg dbOk ch (worldVia req.azUrl w) with
+      | crash => simp [hval] at hr
+      | unmodelled => simp only [hval] at hr; injection hr with hr; subst hr; simp [untouched, hp] at hv
+      | mismatch => simp only [hval] at hr; injection hr with hr; subst hr; simp [untouched, hp] at hv
+      | done o =>
+        simp only [hval] at hr
+        injection hr with hr; subst hr
+        obtain ⟨hd, hc⟩ := validate_valid_only_if h cfg dbOk ch _ o hp hval hv
+        exact ⟨rfl, rfl, hd, hc⟩
+
+/-- an unknown authorization id in the URL never yields a valid device-attest-01 challenge -/
+theorem getChallenge_missing_authz (h : Hash) (cfg : Cfg) (dbOk : Bool) (ch : Ch) (i : DaIn) (req : HReq) (r : HOut)
+    (hp : ch.status = .pending) (ht : ch.typ = .deviceAttest01) (hm : req.azUrl = .missing)
+    (hr : getChallenge h cfg dbOk ch (.attest i) req = .val r) : r.effect.status ≠ .valid := by
+  intro hv
+  unfold getChallenge at hr
+  cases hex : req.chExists
+  · simp [hex] at hr; subst hr; simp [untouched, hp] at hv
+  · cases hown : req.owner
+    · simp [hex, hown] at hr; subst hr; simp [untouched, hp] at hv
+    · simp only [hex, hown, Bool.not_true, Bool.false_eq_true, if_false, worldVia, hm, if_true] at hr
+      unfold validate at hr
+      simp only [hp, ne_eq, not_true_eq_false, if_false, ht] at hr
+      cases hd : deviceAttest01Validate h dbOk ch { i with authzOk := false, authzMissing := true } with
+      | crash => simp [hd] at hr
+      | val o =>
+        simp only [hd] at hr
+        injection hr with hr; subst hr
+        have := (device_attest_valid_only_if_partial h dbOk ch _ o hp hd hv).2.1
+        simp at this
+
+/-- a 200 answer shows the stored state: the validator returned nil, so what it wrote is stored -/
+theorem getChallenge_ok_ret (h : Hash) (cfg : Cfg) (dbOk : Bool) (ch : Ch) (w : World) (req : HReq) (r : HOut)
+    (hr : getChallenge h cfg dbOk ch w req = .val r) (hc : r.code = .ok) : r.effect.ret = .ok := by
+  unfold getChallenge at hr
+  split at hr; · injection hr with hr; subst hr; cases hc
+  split at hr; · injection hr with hr; subst hr; cases hc
+  split at hr
+  · rename_i o _
+    injection hr with hr; subst hr
+    cases hret : o.ret <;> simp [hret] at hc ⊢
+  · cases hr
+  · injection hr with hr; subst hr; cases hc
+  · injection hr with hr; subst hr; cases hc
+
+/-- the handler never aborts (ParseIP's 16-byte results) -/
+theorem getChallenge_total (h : Hash) (cfg : Cfg) (dbOk : Bool) (ch : Ch) (w : World) (req : HReq)
+    (h16 : ∀ a, ch.ip = some a → a.length = 16) : getChallenge h cfg dbOk ch w req ≠ .crash := by
+  unfold getChallenge
+  split; · simp
+  split; · simp
+  have := validate_total h cfg dbOk ch (worldVia req.azUrl w) h16
+  split <;> simp_all
+
+/-- **End to end**: after the POST and a poll of the owning authorization, that authorization is
+    valid only if it already was, or it was pending and unexpired and the stored challenge is valid;
+    an authorization merely *named in the URL* is valid only if it already was. -/
+theorem handler_authz_valid_cause (own foreign : AzRec) (e : Outcome) :
+    (pollOwn own e = .valid → own.status = .valid ∨ (own.status = .pending ∧ own.expired = false ∧ e.status = .valid)) ∧
+    (pollForeign foreign = .valid → foreign.status = .valid) := by
+  constructor
+  · intro hv
+    rcases authz_valid_cause _ _ hv with h1 | ⟨h1, h2, h3⟩
+    · exact .inl h1
+    · exact .inr ⟨h1, h2, by simpa using h3⟩
+  · intro hv
+    rcases authz_valid_cause _ _ hv with h1 | ⟨_, _, h3⟩
+    · exact h1
+    · cases h3
+
+example : getChallenge wHash ⟨false, 0, 0⟩ true
+    ⟨.http01, .pending, .none, s "example.com", s "tok", some (s "thumb"), none⟩
+    (.http (.resp 200 (some (s "tok.thumb")))) ⟨true, true, .own⟩ =
+    .val ⟨.ok, ⟨.valid, .none, .ok, .httpGet (s "http://example.com/.well-known/acme-challenge/tok"), false⟩⟩ := by decide
+
+/-! ## 12. what the source-derived tables mean (stage `src`, regenerated with go/ast on every run) -/
+
+/-- **The only functions of package acme that set a challenge's status to valid are the six
+    validators `Challenge.Validate` dispatches to** — four of them modelled here with a proved
+    accepting condition, the two Wire validators listed but not modelled.  A new writer changes the
+    regenerated table and this obligation. -/
+def dispatchedTypes : List ChType := [.http01, .dns01, .tlsalpn01, .deviceAttest01, .wireOidc01, .wireDpop01]
+
+theorem src_challenge_valid_writers :
+    ∀ e ∈ Src.statusWriters, e.2.1 = "ch" → e.2.2 = "StatusValid" →
+      ∃ t ∈ dispatchedTypes, t.goValidator = e.1 ∧ (t.goConst, e.1) ∈ Src.dispatch := by
+  decide
+
+/-- the only other writer of a challenge status is `storeError` (invalid) -/
+theorem src_challenge_other_writers :
+    ∀ e ∈ Src.statusWriters, e.2.1 = "ch" → e.2.2 ≠ "StatusValid" → e = ("storeError", "ch", "StatusInvalid") := by
+  decide
+
+/-- **`Authorization.UpdateStatus` is the only function that assigns an authorization's status**,
+    in package acme and in package acme/api; `deviceAttest01Validate` writes an authorization
+    record (the fingerprint) without assigning its status — which is what `daAuthzRecord` models
+    and `authz_not_revived` / `authz_foreign_not_valid` rely on. -/
+theorem src_authz_status_single_writer :
+    (∀ e ∈ Src.statusWriters, e.2.1 = "az" → e.1 = "Authorization.UpdateStatus") ∧
+    (∀ e ∈ Src.apiStatusWriters, e.2.1 ≠ "az") ∧
+    Src.authzUpdaters = ["Authorization.UpdateStatus", "deviceAttest01Validate"] ∧ Src.apiAuthzUpdaters = [] ∧
+    (∀ e ∈ Src.statusWriters, e.1 ≠ "deviceAttest01Validate" ∨ e.2.1 = "ch") := by
+  decide
+
+/-- `Challenge.Validate` returns at once unless the challenge is pending and then calls, for each
+    modelled type, exactly the validator `validate` models for it -/
+theorem src_dispatch_agrees :
+    Src.dispatchGuard = "pending-only" ∧
+    (∀ t : ChType, (Src.dispatch.find? (·.1 = t.goConst)).map (·.2) = some t.goValidator) ∧
+    Src.dispatch.length = 7 := by
+  refine ⟨rfl, ?_, rfl⟩
+  intro t; cases t <;> decide
+
+/-- **`api.challengeTypes` as written in the source is the model's `challengeTypes`**, for every
+    identifier type and wildcard flag -/
+theorem src_types_agree (t : IdType) (w : Bool) :
+    Src.typesFor t.goConst w = (challengeTypes t w).map (fun c => "acme." ++ c.goConst) := by
+  cases t <;> cases w <;> decide
+
+/-- `api.GetChallenge` as written: the ownership comparison is a top-level statement that returns,
+    placed before `ch.Validate`; the key handed to `Validate` is the one `jwkFromContext` returned
+    and is assigned once; the challenge comes from `db.GetChallenge`; the authorization id is the URL
+    parameter — the shape `getChallenge` models -/
+theorem src_handler_shape :
+    Src.handlerOrder = "ownership-then-validate;validate(ctx+db+jwk+payload.value);jwk=jwkFromContext();jwk-assignments=1;ch=db.GetChallenge;ch.AuthorizationID=azID;azID=chi.URLParam:authzID" := rfl
 
 end Verif.AcmeChallenge
